@@ -722,6 +722,7 @@ class Emitter:
                 head = self.V(scrut)
             arms = []
             seen_pats = {}
+            guarded_pats = set()
             arm_list = list(e[2])
             if tuple_scrut is None and self.expand_catch_all and arm_list:
                 # a final catch-all over `Value` is spelled out constructor by constructor (Lean's termination checker does not
@@ -780,10 +781,13 @@ class Emitter:
                 # arms that differ only by `Evaluated::New` / `Evaluated::Raw` (owned or borrowed result) coincide after erasure
                 fresh_pts = []
                 for p_ in pts:
+                    if p_ in guarded_pats:
+                        continue          # reached only through the else-branch of the guarded arm with the same pattern above (already emitted there)
                     if p_ in seen_pats:
                         if self.strip_fresh(seen_pats[p_]) != self.strip_fresh(body_txt): raise UnsupportedSyntax("arms that differ only by Evaluated::New / Evaluated::Raw have different bodies")
                     else:
                         seen_pats[p_] = body_txt; fresh_pts.append(p_)
+                        if guard is not None: guarded_pats.add(p_)
                 if not fresh_pts: continue
                 pts = fresh_pts
                 arms.append("".join("\n | %s" % p for p in pts) + " => " + body_txt)
